@@ -578,10 +578,11 @@ package tls
 //@ spec sessKept(css, s0) = css.session != nil && (s0 != nil ==> css.session == s0)
 //@ func (*ClientSessionState).SetSessionTicket
 //@   property C20 C35 C31
-//@   requires has: css != nil && css.session != nil
-//@   modifies css.session.ticket
-//@   ensures css.session.ticket == SessionTicket
-//@   note unlike the nine other setters there is no `if css.session == nil` here: (&ClientSessionState{}).SetSessionTicket(t) is a nil dereference
+//@   requires css != nil
+//@   modifies css.session, css.session.ticket
+//@   ensures sess: sessKept(css, old(css.session)) && (old(css.session) == nil ==> fresh(css.session))
+//@   ensures set: css.session.ticket == SessionTicket
+//@   note History: before the fix "SetSessionTicket creates the session like the other setters" this was the only setter without `if css.session == nil`: (&ClientSessionState{}).SetSessionTicket(t) was a nil dereference (forging a session starting with the ticket)
 
 //@ func (*ClientSessionState).SetVers
 //@   property C20 C35 C31
